@@ -108,8 +108,13 @@ func genBalloonTypesCase(t *rapid.T, o genOpts) *hcCase {
 	cfg := mk(t)
 	c := &hcCase{Policy: polBalloons, Topo: topo, Config: cfg}
 	c.Ops = genOpsWith(t, o, topo, blnAnnotations, func(t *rapid.T) *vhConfig {
-		if rapid.IntRange(0, 3).Draw(t, "sameCfg") == 0 {
+		switch rapid.IntRange(0, 4).Draw(t, "sameCfg") {
+		case 0:
 			return cfg.clone()
+		case 1:
+			// other types, rejected only once the policy has started to build them: type
+			// selection must keep following the configuration in effect
+			return blnLateRejected(mk(t), topo)
 		}
 		return mk(t)
 	})
